@@ -324,7 +324,7 @@ for _cid, _what in [("C03", "publish decision = attached AND W in want&given; a 
                     ([Part("ranges", TYPES, "^TestVerifC04Ranges$", shards=(16, 16))] if _cid == "C04" else [])))
 
 reg(Check("C11", "model_checking",
-          "BFS over sequences of 31 client messages (5 handshakes, 13 logins incl. wrong password / expired / no-login / suspended / deleted / "
+          "BFS over sequences of 41 client messages (5 handshakes, 17 logins incl. an expired password record and credential responses, 3 account-administration requests, 13 logins incl. wrong password / expired / no-login / suspended / deleted / "
           "needs-validation / root tokens, 2 account creations, 9 privileged requests incl. on-behalf-of, 2 notes) on a fresh connection, "
           "depth 4 quick / 6 thorough, against a 3-state machine; the session's own uid/level/version are compared with the model after every step",
           ["canonical schedule", "bcrypt runs at minimal cost in the instrumented build"],
